@@ -474,6 +474,11 @@ func (c *Conn) prepareDualStackServerHandshakeStart(ctx context.Context) (handsh
 		flight12: dtlsflight12.Flight0,
 		flight13: dtlsflight13.Flight0,
 		fsmState: dtlshandshake.StatePreparing,
+		// The ClientHello has been read already: without this the state
+		// machine waits for the client to repeat it.
+		postSetup: func(ctx context.Context) {
+			c.primeHandshakeRecv(ctx)
+		},
 	}, nil
 }
 
